@@ -213,8 +213,74 @@ func c03GateX(first, later string, conc int, b Bounds) *Scenario {
 	}
 }
 
+// batchGate: ONE batch in which the gated call g returns only once another runnable member of the
+// same batch has entered its handler. With enough execution slots every runnable member of a batch
+// must be started whatever else the batch holds (failed members in front, behind or between): if one
+// member is run to completion before the next is started, the execution deadlocks.
+func batchGate(rule, token string, conc int, b Bounds) *Scenario {
+	tokens := []string{token}
+	return &Scenario{
+		Name:   fmt.Sprintf("one batch %s conc=%d: the gated call returns only after another member of the batch has entered", token, conc),
+		Params: map[string]any{"messages": tokens, "concurrency": conc},
+		Bounds: b,
+		New: func() *Instance {
+			h := &seqHarness{msgs: buildSeq(tokens), gates: NewGates()}
+			gateName := ""
+			for _, mem := range h.msgs[0].Members {
+				if mem.Kind == 'g' {
+					gateName = mem.Method
+				}
+			}
+			inner := h.handler()
+			hd := func(ctx context.Context, req *jrpc2.Request) (any, error) {
+				if req.Method() != gateName {
+					h.gates.Open(gateName)
+				}
+				return inner(ctx, req)
+			}
+			body := func() {
+				lib, peer, _ := NewPipe(PipeOpts{Name: "srv", CloseUnblocksRecv: true})
+				srv := jrpc2.NewServer(anyAssigner{hd}, &jrpc2.ServerOptions{Concurrency: conc})
+				srv.Start(lib)
+				vs.GoNamed("peer", func() {
+					peer.Send([]byte(h.msgs[0].JSON))
+					vs.AwaitQuiescence()
+					vs.Note("quiet")
+					peer.Close()
+				})
+				srv.WaitStatus()
+			}
+			check := func(x *vs.Exec) []Viol {
+				v := genericRules(x, nil)
+				Hit(rule)
+				if findEv(x, 0, "h_exit", gateName) < 0 {
+					v = append(v, Viol{rule, "members of one batch were not started side by side although execution slots were free: the gated call never completed"})
+				}
+				return v
+			}
+			return &Instance{Body: body, Check: check}
+		},
+	}
+}
+
+func batchGates(rule, tier string) []*Scenario {
+	var out []*Scenario
+	toks := []string{"[gc]", "[cg]", "[ugc]", "[ucg]", "[uugc]", "[ugcc]", "[gcu]", "[gn]", "[ung]", "[xgc]", "[vgc]", "[ugn]"}
+	b := Bounds{1, 1, 0}
+	if tier != "quick" {
+		b = Bounds{2, -1, 0}
+		toks = append(toks, "[uuugc]", "[ugcu]", "[xugcc]", "[dgc]", "[yygc]")
+	}
+	for _, t := range toks {
+		out = append(out, batchGate(rule, t, 3, b))
+	}
+	out = append(out, batchGate(rule, "[ugc]", 2, b))
+	return out
+}
+
 func c03Scenarios(tier string) []*Scenario {
 	var out []*Scenario
+	out = append(out, batchGates("C03.R2", tier)...)
 	core := [][]string{
 		{"n", "i"}, {"z", "i"}, {"[nc]", "i"},
 		{"z", "z"}, {"z", "c"},
